@@ -271,7 +271,7 @@ impl Linker {
 
         let mut layout_rules_builder = LayoutRulesBuilder::default();
 
-        let auxiliary = input_data::AuxiliaryFiles::new(args, &self.inputs_arena)?;
+        let auxiliary = input_data::AuxiliaryFiles::new(args, file_loader)?;
 
         let mut symbol_db = symbol_db::SymbolDb::new(args, output_kind, &auxiliary, &self.herd)?;
         let mut per_symbol_flags = PerSymbolFlags::new();
